@@ -73,9 +73,11 @@ def gen(rng, tier):
                           "w_in": "default" if cls == "CubaLIF" else None, "stale": True})
     # parameters given as views with an unusual memory layout (cyclically permuted axes, fully broadcast, transposed)
     for _ in range(30 if tier == "quick" else 400):
-        lay = rng.choice(["cyc", "cyc", "bcast0", "bcast0", "T"])
+        lay = rng.choice(["cyc", "cyc", "bcast0", "bcast0", "T", "sparse", "sparse", "matrix"])
         if rng.random() < 0.35:
             shape = [rng.randint(2, 5) for _ in range(rng.choice([3, 4]))]
+            if lay in ("sparse", "matrix"):
+                shape = [rng.randint(3, 6), rng.randint(4, 12)] if lay == "matrix" or rng.random() < 0.6 else shape
             cases.append({"kind": "matvec", "cls": rng.choice(["Affine", "Linear"]), "shape": shape, "dt": "float32",
                           "rt": rng.choice(["dict", "file", "file"]), "layout": lay})
         else:
@@ -83,6 +85,9 @@ def gen(rng, tier):
             shape = [rng.randint(2, 5) for _ in range(rng.choice([1, 2, 3, 3]))]
             cases.append({"kind": "elementwise", "cls": cls, "shape": shape, "dt": rng.choice(["float32", "float64"]),
                           "rt": rng.choice(["dict", "file", "file"]), "w_in": "default" if cls == "CubaLIF" else None, "layout": lay})
+    for _ in range(4 if tier == "quick" else 40):
+        cases.append({"kind": "matvec", "cls": rng.choice(["Affine", "Linear"]), "shape": [rng.randint(2, 6), rng.randint(2, 9)], "dt": "float64",
+                      "rt": rng.choice(["none", "dict", "file"]), "layout": "matrix"})
     # CubaLIF with every admissible form of w_in (lower rank, length-1 axes, scalar, full)
     for _ in range(24 if tier == "quick" else 300):
         rank = rng.choice([1, 2, 2, 3])
@@ -105,6 +110,13 @@ def relayout(a, how):
         return np.broadcast_to(a.reshape(-1)[:1].reshape([1] * a.ndim), a.shape)
     if how == "T" and a.ndim >= 2:
         return np.ascontiguousarray(a.T).T
+    if how == "sparse" and a.size >= 10:
+        # mostly zeros, the only non-zero entries in the first row / column / slice (the far corner is all zero)
+        b = np.zeros_like(a)
+        b.reshape(-1)[0] = 1
+        return b
+    if how == "matrix" and a.ndim == 2:
+        return np.asmatrix(a)          # an ndarray subclass whose slices stay 2-d
     return a
 
 
@@ -162,7 +174,8 @@ def check_type_dict(t, key, want):
 def math_shapes(c, node):
     """really evaluate the documented equation with numpy on zero tensors -> (input shape, output shape)"""
     if c["kind"] == "matvec":
-        W = node.weight.astype("float64") if node.weight.dtype.kind != "c" else node.weight
+        W = np.asarray(node.weight)          # (a numpy.matrix weight is its plain 2-d array for the mathematics)
+        W = W.astype("float64") if W.dtype.kind != "c" else W
         b = W.shape[:-2]
         x = np.zeros(b + (W.shape[-1],))
         y = np.matmul(W, x[..., None])[..., 0]
